@@ -93,7 +93,13 @@ def _pre(a):
 
 def _wrap(f):
     def g(*a, **k):
-        return _post(f(*[_pre(v) for v in a], **{kk: _pre(v) for kk, v in k.items()}))
+        try:
+            return _post(f(*[_pre(v) for v in a], **{kk: _pre(v) for kk, v in k.items()}))
+        except TypeError:
+            # numpy has no object-dtype loop for this function: retry on float64 if nothing is symbolic
+            if any(_has_sym(v) for v in a) or any(_has_sym(v) for v in k.values()):
+                raise core.EngineError(f"numpy.{getattr(f, '__name__', '?')} is not modelled for symbolic arrays")
+            return _post(f(*[conc(v) for v in a], **{kk: conc(v) for kk, v in k.items()}))
     g.__name__ = getattr(f, "__name__", "wrapped")
     return g
 
